@@ -654,6 +654,11 @@ class CouplingAnalysis:
         """
         dim, T = array.shape
 
+        # the growing-cube search needs more than k samples to terminate
+        if not 1 <= k < T:
+            raise ValueError(f"k = {k}, should be between 1 and T - 1 = {T-1}"
+                             " (number of samples minus one)")
+
         if standardize:
             # Standardize
             array = array.astype(FIELD)
